@@ -400,9 +400,16 @@ def pNc : P String := do
   let ncfg ← pNat
   let cfgnames ← pNats ncfg
   let z0f ← pBool
+  let gk ← pNat
   pEnd
+  -- grid kind: 0 = 2-D meshgrids, 1 = 3-D meshgrids (levels DESCENDING), 2 = coordinate vectors; 5 x 4 (x 3) nodes
+  let xs : Nat → V := fun i => Int.ofNat (10 * i)
+  let ys : Nat → V := fun j => Int.ofNat (10 * j + 1)
+  let zs : Nat → V := fun k => Int.ofNat (302 - 100 * k)
+  let grid : NcGrid := if gk == 1 then .g3 (fun _ _ i => xs i) (fun _ j _ => ys j) (fun k _ _ => zs k)
+    else if gk == 0 then .g2 (fun _ i => xs i) (fun j _ => ys j) else .g1 xs ys
   let mkRes : Nat → Nat → NcResult := fun name t =>
-    { flx := fun c => Int.ofNat (name * 10000 + t * 100 + c), conc := fun c => -(Int.ofNat (name * 10000 + t * 100 + c)),
+    { grid := grid, flx := fun c => Int.ofNat (name * 10000 + t * 100 + c), conc := fun c => -(Int.ofNat (name * 10000 + t * 100 + c)),
       timestamp := Int.ofNat (500 + t), ustar := if z0f then none else some (Int.ofNat (7000 + t)),
       mol := some (Int.ofNat (8000 + t)), windSpeed := some (Int.ofNat (9000 + t)), windDir := some (Int.ofNat (9500 + t)) }
   let results : List (V × List NcResult) := names.map (fun n => (Int.ofNat n, (List.range nsteps).map (mkRes n)))
@@ -428,6 +435,14 @@ def pNc : P String := do
   for l in ds.towerLabels ++ [99999] do out := out ++ s!" {showIdx (ds.selTower l)}"
   out := out ++ " seltime"
   for l in ds.timeLabels ++ [99999] do out := out ++ s!" {showIdx (ds.selTime l)}"
+  out := out ++ s!" dims {ds.nTime} {ds.nTowers} x"
+  for i in [0:5] do out := out ++ s!" {ds.x i}"
+  out := out ++ " y"
+  for j in [0:4] do out := out ++ s!" {ds.y j}"
+  out := out ++ " z"
+  match ds.z with
+  | some f => for k in [0:3] do out := out ++ s!" {f k}"
+  | none => out := out ++ " none"
   pure out
 
 def pInt : P Int := do
